@@ -9,7 +9,7 @@ open Discret.Room (Key Ent RightType)
 theorem st2_nodes_sub {d : Defects} {s : Inst} {room : Nat} {b : Batch} {x : NodeRow}
     (hx : x ∈ (st2 d s room b).nodes) : x ∈ s.nodes := by
   have := foldl_applyNodeDel_sublist
-    (L := (dedupDel b.nodeDels).filter fun r => nodeDelAccepted d (st1 d s room b) room r.entry) (s := st1 d s room b)
+    (L := (dedupDel (keepNodeDels d room b.nodeDels)).filter fun r => nodeDelAccepted d (st1 d s room b) r.entry) (s := st1 d s room b)
   have h := this.subset hx
   rw [(st1_fields d s room b).2.1] at h
   exact h
@@ -35,11 +35,13 @@ theorem day_removed_rows {d : Defects} {s : Inst} {room : Nat} {b : Batch} {x : 
     (∃ n ∈ b.nodes, n.row.id = x.id ∧ localRow (st2 d s room b).nodes n.row.id = some x ∧
       NodeOkD d (st2 d s room b) room n) := by
   have hx1 : x ∈ (st1 d s room b).nodes := by rw [(st1_fields d s room b).2.1]; exact hx
-  have viaDel : (∀ r ∈ b.nodeDels, r.sigOk = true) → x ∉ (st2 d s room b).nodes →
+  have viaDel : (∀ r ∈ keepNodeDels d room b.nodeDels, r.sigOk = true) → x ∉ (st2 d s room b).nodes →
       ∃ r ∈ b.nodeDels, x.room = some r.entry.room ∧ x.id = r.entry.id ∧ NodeDelOkD d (st1 d s room b) room r := by
     intro h2 hg
-    exact (deleteNodes_sound (d := d) (s := st1 d s room b) (room := room) h2).2.2.2.2.1 x hx1 hg
-  have viaRow : (∀ r ∈ b.nodeDels, r.sigOk = true) → (∀ n ∈ b.nodes, n.sigOk = true) →
+    obtain ⟨r, hr, h⟩ := (deleteNodes_sound (d := d) (s := st1 d s room b) (room := room) h2
+      (fun r hr => (keepNodeDels_sub hr).2)).2.2.2.2.1 x hx1 hg
+    exact ⟨r, (keepNodeDels_sub hr).1, h⟩
+  have viaRow : (∀ r ∈ keepNodeDels d room b.nodeDels, r.sigOk = true) → (∀ n ∈ b.nodes, n.sigOk = true) →
       x ∉ (st3 d s room b).nodes →
       ((∃ r ∈ b.nodeDels, x.room = some r.entry.room ∧ x.id = r.entry.id ∧ NodeDelOkD d (st1 d s room b) room r) ∨
        (∃ n ∈ b.nodes, n.row.id = x.id ∧ localRow (st2 d s room b).nodes n.row.id = some x ∧
@@ -59,7 +61,7 @@ theorem day_removed_rows {d : Defects} {s : Inst} {room : Nat} {b : Batch} {x : 
 theorem st1_edges_sub {d : Defects} {s : Inst} {room : Nat} {b : Batch} {x : EdgeRow}
     (hx : x ∈ (st1 d s room b).edges) : x ∈ s.edges := by
   obtain ⟨_, _, _, h4, _⟩ := foldl_applyEdgeDel
-    (L := b.edgeDels.filter fun r => edgeDelAccepted d s room r.entry) (s := s)
+    (L := (keepEdgeDels d room b.edgeDels).filter fun r => edgeDelAccepted d s r.entry) (s := s)
   exact ((h4 x).mp hx).1
 
 /-- a reference present after the day and not before is a received reference that was entitled to be
@@ -83,11 +85,13 @@ theorem day_removed_refs {d : Defects} {s : Inst} {room : Nat} {b : Batch} {x : 
     (hx : x ∈ s.edges) (hgone : x ∉ (syncDay d s room b).1.edges) :
     (∃ r ∈ b.edgeDels, edgeMatches r.entry x = true ∧ EdgeDelOkD d s room r) ∨
     (∃ e ∈ b.edges, edgeKeyEq e.row x = true ∧ ∃ p, edgeKeyEq e.row p = true ∧
-      EdgeOkD d (st3 d s room b) room (some p) e) := by
-  have viaDel : (∀ r ∈ b.edgeDels, r.sigOk = true) → x ∉ (st1 d s room b).edges →
+      EdgeOkD d (st3 d s room b) room (some p) e ∧ (p ∈ (st3 d s room b).edges ∨ ∃ e' ∈ b.edges, e'.row = p)) := by
+  have viaDel : (∀ r ∈ keepEdgeDels d room b.edgeDels, r.sigOk = true) → x ∉ (st1 d s room b).edges →
       ∃ r ∈ b.edgeDels, edgeMatches r.entry x = true ∧ EdgeDelOkD d s room r := by
     intro h1 hg
-    exact (deleteEdges_sound (d := d) (s := s) (room := room) h1).2.2.2.2.1 x hx hg
+    obtain ⟨r, hr, h⟩ := (deleteEdges_sound (d := d) (s := s) (room := room) h1
+      (fun r hr => (keepEdgeDels_sub hr).2)).2.2.2.2.1 x hx hg
+    exact ⟨r, (keepEdgeDels_sub hr).1, h⟩
   rcases syncDay_cases d s room b with h | ⟨h1, h⟩ | ⟨h1, _, h⟩ | ⟨h1, _, _, h⟩ | ⟨h1, _, _, h4, h⟩ <;> rw [h] at hgone
   · exact absurd hx hgone
   · exact Or.inl (viaDel h1 hgone)
@@ -103,9 +107,11 @@ theorem day_new_node_log {d : Defects} {s : Inst} {room : Nat} {b : Batch} {t : 
     (ht : t ∈ (syncDay d s room b).1.nodeLog) (hnew : t ∉ s.nodeLog) :
     ∃ r ∈ b.nodeDels, r.entry = t ∧ NodeDelOkD d (st1 d s room b) room r := by
   have hn1 : t ∉ (st1 d s room b).nodeLog := by rw [(st1_fields d s room b).2.2]; exact hnew
-  have via : (∀ r ∈ b.nodeDels, r.sigOk = true) → t ∈ (st2 d s room b).nodeLog →
-      ∃ r ∈ b.nodeDels, r.entry = t ∧ NodeDelOkD d (st1 d s room b) room r := fun h2 h =>
-    (deleteNodes_sound (d := d) (s := st1 d s room b) (room := room) h2).2.2.2.2.2 t h hn1
+  have via : (∀ r ∈ keepNodeDels d room b.nodeDels, r.sigOk = true) → t ∈ (st2 d s room b).nodeLog →
+      ∃ r ∈ b.nodeDels, r.entry = t ∧ NodeDelOkD d (st1 d s room b) room r := fun h2 h => by
+    obtain ⟨r, hr, h'⟩ := (deleteNodes_sound (d := d) (s := st1 d s room b) (room := room) h2
+      (fun r hr => (keepNodeDels_sub hr).2)).2.2.2.2.2 t h hn1
+    exact ⟨r, (keepNodeDels_sub hr).1, h'⟩
   rcases syncDay_cases d s room b with h | ⟨_, h⟩ | ⟨_, h2, h⟩ | ⟨_, h2, _, h⟩ | ⟨_, h2, _, _, h⟩ <;> rw [h] at ht
   · exact absurd ht hnew
   · exact absurd ht hn1
@@ -116,9 +122,11 @@ theorem day_new_node_log {d : Defects} {s : Inst} {room : Nat} {b : Batch} {t : 
 theorem day_new_edge_log {d : Defects} {s : Inst} {room : Nat} {b : Batch} {t : EdgeDel}
     (ht : t ∈ (syncDay d s room b).1.edgeLog) (hnew : t ∉ s.edgeLog) :
     ∃ r ∈ b.edgeDels, r.entry = t ∧ EdgeDelOkD d s room r := by
-  have via : (∀ r ∈ b.edgeDels, r.sigOk = true) → t ∈ (st1 d s room b).edgeLog →
-      ∃ r ∈ b.edgeDels, r.entry = t ∧ EdgeDelOkD d s room r := fun h1 h =>
-    (deleteEdges_sound (d := d) (s := s) (room := room) h1).2.2.2.2.2 t h hnew
+  have via : (∀ r ∈ keepEdgeDels d room b.edgeDels, r.sigOk = true) → t ∈ (st1 d s room b).edgeLog →
+      ∃ r ∈ b.edgeDels, r.entry = t ∧ EdgeDelOkD d s room r := fun h1 h => by
+    obtain ⟨r, hr, h'⟩ := (deleteEdges_sound (d := d) (s := s) (room := room) h1
+      (fun r hr => (keepEdgeDels_sub hr).2)).2.2.2.2.2 t h hnew
+    exact ⟨r, (keepEdgeDels_sub hr).1, h'⟩
   rcases syncDay_cases d s room b with h | ⟨h1, h⟩ | ⟨h1, _, h⟩ | ⟨h1, _, _, h⟩ | ⟨h1, _, _, _, h⟩ <;> rw [h] at ht
   · exact absurd ht hnew
   · exact via h1 ht
@@ -155,15 +163,15 @@ theorem edgeStage_single (d : Defects) (s : Inst) (room : Nat) (e : InEdge) :
   unfold edgeStage addEdgesLoop
   cases h : edgeAccepted d s room s.edges e <;> simp [addEdgesLoop]
 
-theorem deleteNodes_single (d : Defects) (s : Inst) (room : Nat) (r : InNodeDel) :
-    deleteNodes d s room [r] = if nodeDelAccepted d s room r.entry then applyNodeDel s r.entry else s := by
+theorem deleteNodes_single (d : Defects) (s : Inst) (r : InNodeDel) :
+    deleteNodes d s [r] = if nodeDelAccepted d s r.entry then applyNodeDel s r.entry else s := by
   unfold deleteNodes
-  cases h : nodeDelAccepted d s room r.entry <;> simp [dedupDel, h]
+  cases h : nodeDelAccepted d s r.entry <;> simp [dedupDel, h]
 
-theorem deleteEdges_single (d : Defects) (s : Inst) (room : Nat) (r : InEdgeDel) :
-    deleteEdges d s room [r] = if edgeDelAccepted d s room r.entry then applyEdgeDel s r.entry else s := by
+theorem deleteEdges_single (d : Defects) (s : Inst) (r : InEdgeDel) :
+    deleteEdges d s [r] = if edgeDelAccepted d s r.entry then applyEdgeDel s r.entry else s := by
   unfold deleteEdges
-  cases h : edgeDelAccepted d s room r.entry <;> simp [h]
+  cases h : edgeDelAccepted d s r.entry <;> simp [h]
 
 theorem dedupDel_nodup {recs : List InNodeDel} (hd : (recs.map (·.entry.id)).Nodup) : dedupDel recs = recs := by
   induction recs with
@@ -179,22 +187,24 @@ theorem dedupDel_nodup {recs : List InNodeDel} (hd : (recs.map (·.entry.id)).No
     rw [this, ih hd.2]
     simp
 
-/-! ### the guard under which the code as written satisfies the statement -/
+/-! ### the guard under which a setting of the switches satisfies the statement -/
 
-/-- no record of the batch has one of the shapes the code does not check -/
-def dayGuard (s : Inst) (room : Nat) (b : Batch) : Bool :=
-  b.edgeDels.all (edgeDelGuard s room) &&
-  b.nodeDels.all (nodeDelGuard (st1 Defects.asImplemented s room b) room) &&
-  b.nodes.all (nodeGuard (st2 Defects.asImplemented s room b)) &&
-  b.edges.all (edgeGuard (st3 Defects.asImplemented s room b) room
-    ((st3 Defects.asImplemented s room b).edges ++ b.edges.map (·.row)))
+/-- no record of the batch has one of the shapes that the setting `d` of the switches leaves unchecked;
+    every record is judged against the tables its stage sees -/
+def dayGuardD (d : Defects) (s : Inst) (room : Nat) (b : Batch) : Bool :=
+  b.edgeDels.all (edgeDelGuardD d s room) &&
+  b.nodeDels.all (nodeDelGuardD d (st1 d s room b) room) &&
+  b.nodes.all (nodeGuardD d (st2 d s room b)) &&
+  b.edges.all (edgeGuardD d (st3 d s room b) room ((st3 d s room b).edges ++ b.edges.map (·.row)))
 
-/-- the guard that was needed before /repo 37a7f03 and e73c9e7 -/
-def dayGuardBeforeFixes (s : Inst) (room : Nat) (b : Batch) : Bool :=
-  b.edgeDels.all (edgeDelGuard s room) &&
-  b.nodeDels.all (nodeDelGuard (st1 Defects.beforeFixes s room b) room) &&
-  b.nodes.all (nodeGuardBeforeFixes (st2 Defects.beforeFixes s room b)) &&
-  b.edges.all (edgeGuard (st3 Defects.beforeFixes s room b) room
-    ((st3 Defects.beforeFixes s room b).edges ++ b.edges.map (·.row)))
+/-- the guard of the code as it is -/
+def dayGuard (s : Inst) (room : Nat) (b : Batch) : Bool := dayGuardD Defects.asImplemented s room b
+
+/-- the guard that was needed before /repo 37a7f03, e73c9e7 and 4dd7eb7 -/
+def dayGuardBeforeFixes (s : Inst) (room : Nat) (b : Batch) : Bool := dayGuardD Defects.beforeFixes s room b
+
+/-- with every switch off nothing is excluded -/
+theorem dayGuardD_none (s : Inst) (room : Nat) (b : Batch) : dayGuardD Defects.none s room b = true := by
+  simp [dayGuardD, edgeDelGuardD_none, nodeDelGuardD_none, nodeGuardD_none, edgeGuardD_none]
 
 end Discret.Ingest
